@@ -3,13 +3,25 @@ From Coq Require Import List NArith Bool Arith.
 Import ListNotations.
 From Grip Require Export Model.Bytes Model.Keys.
 
-Inductive c16_kind := KGraphName | KVertex | KEdge | KFieldName | KValue.
+Inductive c16_kind := KGraphName | KVertex | KEdge | KFieldName | KValue
+| KKeys.   (* the key constructors of kvgraph/keys.go and kvindex/keys.go, byte for byte *)
 Record c16_case := {
   ck : c16_kind; cg : bytes; cid : bytes; clabel : bytes; cfrom : bytes; cto : bytes;
   cacc : bool;      (* the write call returned no error *)
   cread : bool;     (* read back identical through lookup, listing and traversal, exactly once *)
-  cothers : bool    (* every other element / graph observed unchanged *)
+  cothers : bool;   (* every other element / graph observed unchanged *)
+  cfield : bytes;   (* KKeys: the index field name *)
+  ckeys : list bytes  (* KKeys: the keys and prefixes the real constructors returned (order of model_keys) *)
 }.
+
+(* KKeys: cg = graph, cid = vertex / edge / document id, clabel = label / term, cfrom, cto = endpoints *)
+Definition model_keys (c : c16_case) : list bytes :=
+  let g := cg c in let v := cid c in let l := clabel c in let s := cfrom c in let d := cto c in let f := cfield c in
+  [graph_key g; vertex_key g v; vertex_list_prefix g; edge_key g v s d l; edge_key_prefix g v; edge_list_prefix g;
+   src_key g s d v l; src_edge_prefix g s; dst_key g s d v l; dst_edge_prefix g d;
+   entry_key f l v; entry_value_prefix f l; entry_prefix f; term_key f l; term_prefix f].
+Fixpoint keys_eqb (a b : list bytes) : bool :=
+  match a, b with [], [] => true | x :: r, y :: r' => beqb x y && keys_eqb r r' | _, _ => false end.
 
 Definition lit_label : bytes := [108; 97; 98; 101; 108]%N.   (* "label": refused by the index layer *)
 Definition reserved : list bytes :=
@@ -23,11 +35,20 @@ Definition model_accepts (c : c16_case) : bool :=
              && negb (beqb (clabel c) lit_label)
   | KFieldName => valid_name_b (cid c) && negb (existsb (beqb (cid c)) reserved)
   | KValue => true
+  | KKeys => true
   end.
 
-Definition agrees (c : c16_case) : bool := Bool.eqb (model_accepts c) (cacc c).
+Definition agrees (c : c16_case) : bool :=
+  match ck c with
+  | KKeys => keys_eqb (model_keys c) (ckeys c)
+  | _ => Bool.eqb (model_accepts c) (cacc c)
+  end.
 (* the property itself: accepted => read back verbatim and nothing else changed; refused => nothing changed *)
-Definition spec_ok (c : c16_case) : bool := if cacc c then cread c && cothers c else cothers c.
+Definition spec_ok (c : c16_case) : bool :=
+  match ck c with
+  | KKeys => keys_eqb (model_keys c) (ckeys c)     (* the theorems of Properties/C16.v are about exactly these byte strings *)
+  | _ => if cacc c then cread c && cothers c else cothers c
+  end.
 
 Fixpoint idx_where {X} (p : X -> bool) (i : nat) (l : list X) : list nat :=
   match l with [] => [] | x :: r => if p x then i :: idx_where p (S i) r else idx_where p (S i) r end.
